@@ -80,8 +80,14 @@ class Cmp:
                 a, b = e['args'][0], e['args'][1]
         if op is not None:
             ta, tb = strip_copies(strip_casts(a)), strip_copies(strip_casts(b))
-            if ta.get('k') == 'call' and (ta.get('callee') or '') in ('std::tie', 'std::make_tuple', 'std::forward_as_tuple') and \
-                    tb.get('k') == 'call' and (tb.get('callee') or '') == ta.get('callee'):
+
+            def tuple_maker(x):
+                if x.get('k') != 'call':
+                    return None
+                n = x.get('callee') or (x.get('fn') or {}).get('name') or ''
+                n = n.split('::')[-1]
+                return n if n in ('tie', 'make_tuple', 'forward_as_tuple', 'make_pair') else None
+            if tuple_maker(ta) and tuple_maker(ta) == tuple_maker(tb) and len(ta['args']) == len(tb['args']):
                 # lexicographic
                 rels = [self.rel(x, y, sigma) for x, y in zip(ta['args'], tb['args'])]
                 r = '='
